@@ -153,6 +153,79 @@ fn check_calendar_date(y: i32, mo: u8, da: u8, h: u8, mi: u8, s: u8) -> Result<(
     }
 }
 
+/// try_from(OffsetDateTime) for values that carry a non-UTC offset. Which clock the fields are taken
+/// from (the value's own wall clock, as the code does, or UTC) is not stated anywhere, so both are
+/// accepted; what is demanded is: no panic, an accepted value is a valid in-range DateTime equal to one
+/// of the two readings and survives packing / an archive round trip, and a rejection is only allowed when
+/// one of the two readings is out of range.
+#[derive(Clone, Debug, Serialize, Deserialize, Hash)]
+pub struct OffCase {
+    y: i32,
+    mo: u8,
+    d: u8,
+    h: u8,
+    mi: u8,
+    s: u8,
+    off_h: i8,
+    off_m: i8,
+    off_s: i8,
+}
+
+fn check_offset_case(c: &OffCase) -> Result<(), String> {
+    use std::convert::TryFrom;
+    let month = time::Month::try_from(c.mo).map_err(|e| format!("harness: {e}"))?;
+    let d = c.d.min(days_in(c.y, c.mo));
+    let date = time::Date::from_calendar_date(c.y, month, d).map_err(|e| format!("harness: {e}"))?;
+    let tm = time::Time::from_hms(c.h, c.mi, c.s).map_err(|e| format!("harness: {e}"))?;
+    // sign of minutes/seconds must follow the hours' sign
+    let sg = if c.off_h < 0 || (c.off_h == 0 && c.off_m < 0) { -1 } else { 1 };
+    let off = time::UtcOffset::from_hms(c.off_h, sg * c.off_m.abs(), sg * c.off_s.abs()).map_err(|e| format!("harness: {e}"))?;
+    let odt = time::PrimitiveDateTime::new(date, tm).assume_offset(off);
+    let utc = odt.to_offset(time::UtcOffset::UTC);
+    let wall = (odt.year(), u8::from(odt.month()), odt.day(), odt.hour(), odt.minute(), odt.second());
+    let univ = (utc.year(), u8::from(utc.month()), utc.day(), utc.hour(), utc.minute(), utc.second());
+    let ok_y = |y: i32| (1980..=2107).contains(&y);
+    let r = crate::util::catch(|| DateTime::try_from(odt)).map_err(|p| format!("try_from({odt}) panicked: {p}"))?;
+    match r {
+        Err(_) => {
+            if ok_y(wall.0) && ok_y(univ.0) {
+                return Err(format!("try_from({odt}) rejected a value whose year is in 1980..=2107 on its own clock and in UTC"));
+            }
+            Ok(())
+        }
+        Ok(dt) => {
+            let got = (dt.year() as i32, dt.month(), dt.day(), dt.hour(), dt.minute(), dt.second());
+            if got != wall && got != univ {
+                return Err(format!("try_from({odt}) = {got:?}, neither the value's own clock {wall:?} nor UTC {univ:?}"));
+            }
+            if !ok_y(got.0) || DateTime::from_date_and_time(dt.year(), dt.month(), dt.day(), dt.hour(), dt.minute(), dt.second()).is_err() {
+                return Err(format!("try_from({odt}) accepted {got:?}, which is outside the documented DateTime ranges"));
+            }
+            let (dp, tp) = crate::util::catch(|| (dt.datepart(), dt.timepart())).map_err(|p| format!("packing try_from({odt}) panicked: {p}"))?;
+            let back = DateTime::from_msdos(dp, tp);
+            if (back.year(), back.month(), back.day(), back.hour(), back.minute(), back.second()) != (dt.year(), dt.month(), dt.day(), dt.hour(), dt.minute(), dt.second() & !1) {
+                return Err(format!("try_from({odt}) = {got:?} does not survive packing into DOS words ({dp:#06x},{tp:#06x})"));
+            }
+            // and an archive round trip
+            let bytes = crate::util::catch(|| -> Result<Vec<u8>, String> {
+                let mut c = std::io::Cursor::new(Vec::new());
+                let mut w = zip::ZipWriter::new(&mut c);
+                w.start_file("t", zip::write::FileOptions::default().compression_method(zip::CompressionMethod::Stored).last_modified_time(dt)).map_err(|e| e.to_string())?;
+                w.finish().map_err(|e| e.to_string())?;
+                drop(w);
+                Ok(c.into_inner())
+            })
+            .map_err(|p| format!("writing an entry stamped try_from({odt}) panicked: {p}"))??;
+            let mut za = zip::ZipArchive::new(std::io::Cursor::new(bytes)).map_err(|e| e.to_string())?;
+            let lm = za.by_index(0).map_err(|e| e.to_string())?.last_modified();
+            if (lm.datepart(), lm.timepart()) != (dp, tp) {
+                return Err(format!("entry stamped try_from({odt}) reads back as ({:#06x},{:#06x}), written ({dp:#06x},{tp:#06x})", lm.datepart(), lm.timepart()));
+            }
+            Ok(())
+        }
+    }
+}
+
 #[derive(Clone, Debug, Serialize, Deserialize, Hash)]
 pub struct ArcChunk {
     first: u64,
@@ -274,7 +347,7 @@ fn par_range(threads: usize, total: u64, f: &(dyn Fn(u64) -> Result<(), String> 
 }
 
 pub fn run(ctx: &mut Ctx) {
-    ctx.rule("dos_all: every (date,time) word pair in 2^16 x 2^16, all distinct by construction, all non-trivial; ctor_*: one constructor argument over its whole domain x boundary values of the others; ctor_random: proptest tuples, non-trivial = accepted value; cal_*: every calendar date 1979-01-01..2108-12-31 x boundary times, and all date words x boundary time words / all time words x boundary date words through to_time()");
+    ctx.rule("dos_all: every (date,time) word pair in 2^16 x 2^16, all distinct by construction, all non-trivial; ctor_*: one constructor argument over its whole domain x boundary values of the others; ctor_random: proptest tuples, non-trivial = accepted value; cal_*: every calendar date 1979-01-01..2108-12-31 x boundary times, and all date words x boundary time words / all time words x boundary date words through to_time(); cal_offsets: OffsetDateTime values with non-UTC offsets concentrated at the ends of the year range (no panic; accepted => valid in-range DateTime equal to the wall-clock or the UTC reading, survives packing and an archive round trip; rejected => one of the two readings is out of range)");
     ctx.assume("the `time` crate's calendar is trusted for constructing OffsetDateTime inputs; validity of dates is decided by an independent leap-year rule");
     ctx.assume("second==60 is accepted by the checked constructor (documented 0..=60); to_time() may reject it (leap seconds are not representable in `time`)");
 
@@ -424,6 +497,26 @@ pub fn run(ctx: &mut Ctx) {
             },
         );
     }
+
+    // (f) calendar values with a non-UTC offset, concentrated at the ends of the year range
+    let n = ctx.q(200_000, 3_000_000);
+    ctx.explore::<OffCase>(
+        "cal_offsets",
+        n,
+        &|| {
+            let y = prop_oneof![2 => Just(1979i32), 3 => Just(1980), 3 => Just(2107), 2 => Just(2108), 2 => 1970i32..=2120, 1 => Just(2), 1 => Just(9998)];
+            let md = prop_oneof![3 => Just((1u8, 1u8)), 3 => Just((12u8, 31u8)), 1 => Just((2u8, 29u8)), 2 => (1u8..=12, 1u8..=31)];
+            let hms = prop_oneof![2 => Just((0u8, 0u8, 0u8)), 2 => Just((23u8, 59u8, 59u8)), 1 => (0u8..=1, 0u8..=59, 0u8..=59), 1 => (22u8..=23, 0u8..=59, 0u8..=59), 2 => (0u8..=23, 0u8..=59, 0u8..=59)];
+            let off = prop_oneof![1 => Just((0i8, 0i8, 0i8)), 3 => (-23i8..=23, 0i8..=59, Just(0i8)), 1 => (-23i8..=23, 0i8..=59, 0i8..=59), 2 => prop_oneof![Just((1i8, 0i8, 0i8)), Just((-1, 0, 0)), Just((0, 1, 0)), Just((0, -1, 0)), Just((14, 0, 0)), Just((-12, 0, 0)), Just((5, 30, 0)), Just((23, 59, 59)), Just((-23, 59, 59))]];
+            (y, md, hms, off).prop_map(|(y, (mo, d), (h, mi, s), (off_h, off_m, off_s))| OffCase { y, mo, d, h, mi, s, off_h, off_m, off_s }).boxed()
+        },
+        &|c: &OffCase, info: &mut Info| {
+            info.nontrivial = (c.off_h, c.off_m, c.off_s) != (0, 0, 0);
+            info.label_if((c.off_h, c.off_m, c.off_s) != (0, 0, 0), "non-utc-offset");
+            info.label_if(matches!(c.y, 1979 | 1980 | 2107 | 2108), "year-range-end");
+            Verdict::from_result(check_offset_case(c))
+        },
+    );
 
     // (c) random joint constructor values
     let n = ctx.q(1_000_000, 20_000_000);
